@@ -337,6 +337,13 @@ impl<'a> Ev<'a> {
                 m
             }
             AssetE::Paren(a) => self.asset(a)?,
+            AssetE::Neg(a) => {
+                let mut m = self.asset(a)?;
+                for v in m.values_mut() {
+                    *v = v.checked_neg().ok_or_else(ovf)?;
+                }
+                m
+            }
         })
     }
 
